@@ -5,6 +5,7 @@ import itertools
 import numpy as np
 
 from . import argforms_a as af
+from . import callshape as cs
 from . import qc
 from .common import bits, unbits
 from .qc import torch
@@ -23,13 +24,17 @@ THEOREMS = {
     "phase": "C01_phase",
     "amplitude": "C01_amplitude_eq",
 }
-REQUIRED_THEOREMS = ['C01_hidden_marginal', 'C01_normSq_psi_positive', 'C01_normSq_psi_complex', 'C01_normalization', 'C01_unit_norm', 'C01_modulus_indep_phase_net', 'C01_phase', 'C01_psi_polar', 'C01_positive_real_pos']
+REQUIRED_THEOREMS = ['C01_hidden_marginal', 'C01_normSq_psi_positive', 'C01_normSq_psi_complex', 'C01_normalization', 'C01_unit_norm', 'C01_modulus_indep_phase_net', 'C01_phase', 'C01_psi_polar', 'C01_positive_real_pos',
+                     'C01_call_forms', 'C01_vector_form_is_row', 'C01_psiPos_polar']   # extension round 2: call forms inside the model
 RULE = ("case = (state kind, n, h, parameter scale, parameters); generated with every weight/bias = scale*N(0,1) "
         "(scale in {0,0.1,1,3,10,30}, plus a tiny-rows regime - visible biases in -25..-110 at unit couplings, so that the rows of one state span 50..300 orders of magnitude inside the exp domain -, plus overflow probes at scale 100 / 300 that are compared in the LOG domain); all 2^n basis states evaluated in the "
         "batched form (every exp-domain value compared ROW-WISE RELATIVELY / in the log domain in every regime), in the vector form (every row) and in a rank-3 batch-of-batches form; "
         "argument forms (round 5): the constructor sizes num_visible / num_hidden (state and BinaryRBM constructors), `gpu`, the `size` of "
         "generate_hilbert_space and the normalisation `Z` handed to probability are drawn per case from a seeded stream (`aseed`: Python int, "
         "numpy integer scalars, 0-d numpy / torch integers; bool singleton, 0/1, numpy bools, 0-d bool arrays / tensors; keyword and positional); "
+        "CALL FORMS (extension round 2): per run ~24 cases (state kind, n, h, scale in {0.1,1,3}, random 0/1 rows) in the forms vector (n,), batch (B,n) with B in 1..3 "
+        "(incl. B = 1: a batch that must keep its axis) and rank-3 (B1,B2,n): effective_energy / amplitude / phase / psi / probability of the REAL state against the model of "
+        "auto_unsqueeze_args (accepted-or-refused, exact result shape, entries; vector and batch forms at property level, rank-3 at aux level); "
         "each case is evaluated, then re-parametrised IN PLACE and evaluated again on the same state object and the same space tensors (history); non-trivial iff some visible bias != 0 and some hidden bias != 0 and (h != n or scale >= 1); distinct by hash of the case")
 
 
@@ -329,6 +334,68 @@ def overflow_probes(ctx, thorough):
                 yield kind, n, h, scale, am, ph
 
 
+# ---------------------------------------------------------------- call forms (extension round 2)
+CALLFORM_THEOREM = "C01_call_forms / C01_vector_form_is_row (C01_psiPos_polar for the positive state's phase and psi)"
+
+
+def callform_case(ctx, case):
+    """one state, one tensor argument: every public evaluation method of the REAL state against the model of the decorated method
+    (QV.Model.CallShape / States: RBM.effectiveEnergy, Wave.amplitudeCall, phaseCall / phasePosCall, psiCplxCall / psiPosCall,
+    probabilityCall).  Vector and batch forms are the property's own quantifier ("vector and batched call forms"): property level;
+    rank-3 arguments (and PositiveWaveFunction.phase on them: scope note C01-1) are aux level."""
+    kind, n, h, am, ph, lead = case["kind"], case["n"], case["h"], case["am"], case["ph"], case["lead"]
+    ctx.current_case = case
+    st = qc.make_positive(n, h, am) if kind == "pos" else qc.make_complex(n, h, am, ph)
+    x = torch.tensor(case["rows"], dtype=torch.double).reshape(*lead, n)
+    form = "vector" if not lead else ("batch" if len(lead) == 1 else "rank3")
+    level = "property" if len(lead) <= 1 else "aux"
+    ctx.case(case, nontrivial=any(v != 0 for v in am["b"]) and any(v != 0 for v in am["c"]),
+             sample={"callform": form, "kind": kind, "n": n, "h": h, "lead": lead})
+    ctx.count(f"callform/{kind}/{form}" + ("/B=1" if lead == [1] else ""))
+    Z = case["Z"]
+    calls = [("energy", "scalar", lambda: st.rbm_am.effective_energy(x), {}),
+             ("amplitude", "scalar", lambda: st.amplitude(x), {}),
+             ("probability", "scalar", lambda: st.probability(x, Z), {"Z": bits([Z])[0]})]
+    if kind == "cplx":
+        calls += [("phase", "scalar", lambda: st.phase(x), {"ph": qc.pbits(ph)}), ("psi_cplx", "pair", lambda: st.psi(x), {"ph": qc.pbits(ph)})]
+    else:
+        calls += [("phase_pos", "scalar", lambda: st.phase(x), {}), ("psi_pos", "pair", lambda: st.psi(x), {})]
+    x0 = x.clone()
+    for fn, entry, f, extra in calls:
+        impl = cs.impl_result(f, entry)
+        ctx.oracle("call form accepted (vector / batch / rank-3 argument)", not impl["refused"], {**case, "fn": fn}, detail=impl.get("exc"),
+                   sig=f"{kind}/callform/{fn}/accepted", theorem=CALLFORM_THEOREM)
+        if not impl["refused"] and not (fn == "phase_pos" and len(lead) > 1):
+            ctx.oracle("result shape == v.shape[:-1]", impl["shape"] == lead, {**case, "fn": fn}, detail={"shape": impl["shape"]},
+                       sig=f"{kind}/callform/{fn}/shape-oracle", theorem=CALLFORM_THEOREM)
+        if ctx.driver is not None:
+            model = cs.model_result(ctx.driver.call("c01.callform", fn=fn, n=n, h=h, am=qc.pbits(am), x=cs.arg(x), **extra))
+            lv = "aux" if (fn == "phase_pos" and len(lead) > 1) else level
+            sc = float(np.max(np.abs(impl["data"]))) + 1e-300 if not impl["refused"] and impl["data"].size else 1.0
+            cs.compare(ctx, f"{fn} ({form} form)", lv, impl, model, {**case, "fn": fn}, CALLFORM_THEOREM, f"{kind}/callform/{fn}/{form}", scale=sc)
+    ctx.oracle("argument unmodified by the call forms", bool(torch.equal(x, x0)), case, sig=f"{kind}/callform/arg-unmodified", theorem=CALLFORM_THEOREM)
+    if kind == "pos" and len(lead) <= 1 and ctx.driver is not None:
+        # the base-class formula amplitude*(cos,sin)(phase) evaluated in the MODEL with the decorated zero phase == the real override psi
+        base = cs.model_result(ctx.driver.call("c01.callform", fn="psi_pos_base", n=n, h=h, am=qc.pbits(am), x=cs.arg(x)))
+        impl = cs.impl_result(lambda: st.psi(x), "pair")
+        cs.compare(ctx, f"PositiveWaveFunction.psi == base-class polar formula with phase = 0 ({form} form)", "property", impl, base, case,
+                   "C01_psiPos_polar", f"pos/callform/psi-polar/{form}", scale=float(np.max(np.abs(impl["data"]))) + 1e-300)
+
+
+def gen_callforms(ctx, thorough):
+    leads = [[], [], [1], [2], [3], [1, 3], [2, 2], [2, 1]]
+    for rep in range(6 if thorough else 2):
+        for kind in ("pos", "cplx"):
+            n, h = ctx.rng.choice([1, 2, 3, 4, 5]), ctx.rng.choice([1, 2, 3, 4, 5, 6])
+            scale = ctx.rng.choice([0.1, 1.0, 3.0])
+            am = qc.rand_rbm_params(ctx.rng, n, h, scale)
+            ph = qc.rand_rbm_params(ctx.rng, n, h, min(scale, 1.0)) if kind == "cplx" else None
+            for lead in leads[(rep % 2)::2] if not thorough else leads:
+                x = cs.rand_tensor(ctx.rng, lead, n)
+                yield {"callform": True, "kind": kind, "n": n, "h": h, "scale": scale, "am": am, "ph": ph, "lead": lead,
+                       "rows": cs.rows_of(x), "Z": ctx.rng.choice([1.0, 2.5, 0.125])}
+
+
 def run(ctx):
     ctx.rule = RULE
     for (kind, n, h, scale, am, ph) in gen_cases(ctx, ctx.tier == "thorough"):
@@ -345,6 +412,8 @@ def run(ctx):
         am2 = qc.rand_rbm_params(ctx.rng, n, h, scale)
         ph2 = qc.rand_rbm_params(ctx.rng, n, h, 1.0) if kind == "cplx" else None
         one_case(ctx, kind, n, h, scale, am, ph, am2=am2, ph2=ph2, aseed=af.draw_aseed(ctx.rng))
+    for case in gen_callforms(ctx, ctx.tier == "thorough"):   # after the older regimes: their seeded streams are unchanged
+        callform_case(ctx, case)
 
 
 def search(ctx):
@@ -360,4 +429,6 @@ def search(ctx):
 
 
 def replay(ctx, case):
+    if case.get("callform"):
+        return callform_case(ctx, case)
     one_case(ctx, case["kind"], case["n"], case["h"], case["scale"], case["am"], case["ph"], am2=case.get("am2"), ph2=case.get("ph2"), aseed=case.get("aseed"))
